@@ -30,12 +30,18 @@ type bstepRec struct {
 	Num     uint64
 }
 
+type updRec struct {
+	N       *chaingen.Node
+	Applied bool
+}
+
 type rec struct {
 	Op     string // add1 add2 chain look query mine txset parents update
 	Set    []ATx
 	Basis  types.ChainIndex
 	To     types.ChainIndex
 	Steps  []bstepRec
+	Upd    []updRec
 	LR     bool
 	LR1    []ATx
 	LR2    []ATx
@@ -57,7 +63,10 @@ type Runner struct {
 	CM    *chain.Manager
 	Tip   *chaingen.Node
 	Start *chaingen.Node
-	Known map[*chaingen.Node]bool // nodes whose blocks were handed to the manager
+	Known   map[*chaingen.Node]bool // nodes whose blocks the manager stored
+	Applied map[*chaingen.Node]bool // nodes that were on the best chain at some time (full state, supplement)
+	pendUpd []updRec
+	lastRev *chaingen.Node
 	Meta  map[types.TransactionID]Meta
 	NoCoq string // reason why this history has no Coq case ("" = it has one)
 	recs  []rec
@@ -69,7 +78,7 @@ type Runner struct {
 // NewRunner starts a manager at genesis.
 func NewRunner(w *World, fail func(kind, detail string)) *Runner {
 	s := mgrsim.NewSim(w.T, nil)
-	r := &Runner{W: w, Sim: s, CM: s.CM, Tip: w.T.Nodes[0], Start: w.T.Nodes[0], Known: map[*chaingen.Node]bool{w.T.Nodes[0]: true},
+	r := &Runner{W: w, Sim: s, CM: s.CM, Tip: w.T.Nodes[0], Start: w.T.Nodes[0], Known: map[*chaingen.Node]bool{w.T.Nodes[0]: true}, Applied: map[*chaingen.Node]bool{w.T.Nodes[0]: true},
 		Meta: map[types.TransactionID]Meta{}, Fail: fail, Stats: map[string]int{}, MW: 2_000_000}
 	return r
 }
@@ -117,8 +126,23 @@ func (r *Runner) observe(rc *rec) {
 // Chain performs a block submission; the tip may move.
 func (r *Runner) Chain(op mgrsim.Op) mgrsim.Obs {
 	before := r.Tip
+	if op.Kind == "addv" && len(op.Nodes) > 0 {
+		// AddValidatedV2Blocks stores every block with an (empty) supplement and its full state
+		if first := r.W.T.Nodes[op.Nodes[0]]; first.Parent != nil && r.Known[first.Parent] {
+			for _, i := range op.Nodes {
+				n := r.W.T.Nodes[i]
+				if !r.Applied[n] {
+					r.Known[n], r.Applied[n] = true, true
+					r.pendUpd = append(r.pendUpd, updRec{n, true})
+				}
+			}
+		}
+	}
 	// what AddBlocks stores: blocks in order until one whose parent is unknown
 	for _, i := range op.Nodes {
+		if op.Kind != "add" {
+			break
+		}
 		n := r.W.T.Nodes[i]
 		if r.Known[n] {
 			continue
@@ -127,6 +151,7 @@ func (r *Runner) Chain(op mgrsim.Op) mgrsim.Obs {
 			break
 		}
 		r.Known[n] = true
+		r.pendUpd = append(r.pendUpd, updRec{n, false})
 	}
 	o := r.Sim.Do(op)
 	if o.Panic {
@@ -147,18 +172,21 @@ func (r *Runner) Chain(op mgrsim.Op) mgrsim.Obs {
 func (r *Runner) moved(before, after *chaingen.Node, failed bool) {
 	r.Tip = after
 	rc := rec{Op: "chain", Tip: r.W.Info(after)}
-	if before == after {
-		if failed {
-			// a failed reorg may have reverted and re-applied blocks: not projected
-			rc.Op = "query"
-		} else {
-			rc.Op = "query"
+	rev, app := TreePath(before, after)
+	for _, x := range app {
+		if !r.Applied[x] {
+			r.Applied[x] = true
+			r.pendUpd = append(r.pendUpd, updRec{x, true})
 		}
+	}
+	rc.Upd, r.pendUpd = r.pendUpd, nil
+	if before == after {
+		// (a failed reorg may have reverted and re-applied blocks: such histories have no Coq case)
+		rc.Op = "store"
 		rc.Res = Res{Kind: "none"}
 		r.observe(&rc)
 		return
 	}
-	rev, app := TreePath(before, after)
 	for _, x := range rev {
 		rc.Steps = append(rc.Steps, bstepRec{true, r.W.Info(x).Created, r.W.Info(x.Parent).Num})
 	}
@@ -166,11 +194,34 @@ func (r *Runner) moved(before, after *chaingen.Node, failed bool) {
 		rc.Steps = append(rc.Steps, bstepRec{false, r.W.Info(x).Created, r.W.Info(x).Num})
 	}
 	if len(rev) > 0 {
+		r.lastRev = rev[0]
+	}
+	if r.lastRev != nil {
+		// the re-offered transactions keep the proofs they had in their block: whether those
+		// still verify at the new tip is decided by core on the generator's state of the tip
 		rc.LR = true
-		rc.LR1, rc.LR2 = r.AbsBlock(rev[0])
+		rc.LR1, rc.LR2 = r.AbsBlock(r.lastRev)
+		for i, t := range r.lastRev.Block.V2Transactions() {
+			ok := after.FullState.Elements.ValidateTransactionElements(t) == nil
+			for j := range rc.LR2[i].Ins {
+				rc.LR2[i].Ins[j].POK = ok
+			}
+		}
 	}
 	rc.Res = Res{Kind: "none"}
 	r.observe(&rc)
+}
+
+// StoredState returns the state the manager's store holds for a known block: the
+// full state if the block was ever applied, else the header-derived state, whose
+// element accumulator is that of the nearest applied ancestor.
+func (r *Runner) StoredElements(n *chaingen.Node) *chaingen.Node {
+	for ; n != nil; n = n.Parent {
+		if r.Applied[n] {
+			return n
+		}
+	}
+	return r.W.T.Nodes[0]
 }
 
 // Mine calls coreutils.MineBlock on the node; the block is returned without being added.
@@ -192,6 +243,9 @@ func (r *Runner) Adopt(b types.Block) bool {
 		return false
 	}
 	n := r.W.T.AddBlock(b, "")
+	if n != nil {
+		r.pendUpd = append(r.pendUpd, updRec{n, false})
+	}
 	if n == nil || !n.ChainValid() {
 		r.Fail("mined-block-labelled-invalid", "a block mined from the pool and adopted by the node is rejected by a fresh linear node")
 		r.NoCoq = "mined"
@@ -470,15 +524,10 @@ func (r *Runner) CoqCase() string {
 			nm.Tx(rc.ID)
 		}
 	}
-	// universe: every valid node the manager was given
 	for _, n := range r.W.T.Nodes {
 		nm.Blk(n.ID)
 	}
-	var us []string
-	for _, n := range r.W.T.Nodes {
-		if !n.ChainValid() || !r.Known[n] {
-			continue
-		}
+	blkStr := func(n *chaingen.Node, applied bool) string {
 		in := r.W.Info(n)
 		par := uint64(0)
 		if n.Parent != nil {
@@ -490,7 +539,16 @@ func (r *Runner) CoqCase() string {
 				ids = append(ids, fmt.Sprint(v))
 			}
 		}
-		us = append(us, fmt.Sprintf("(%d, B %d true true true [%s] %s %d)", nm.Blk(n.ID), par, strings.Join(ids, "; "), nm.CoqEls(in.Created), in.Num))
+		return fmt.Sprintf("(%d, B %d true true %v [%s] %s %d)", nm.Blk(n.ID), par, applied, strings.Join(ids, "; "), nm.CoqEls(in.Created), in.Num)
+	}
+	// the store also holds the state before genesis under the zero id (no header, no body)
+	us := []string{"(0, B 0 false true false [] [] 0)", blkStr(r.W.T.Nodes[0], true)}
+	updStr := func(us []updRec) string {
+		var ss []string
+		for _, u := range us {
+			ss = append(ss, blkStr(u.N, u.Applied))
+		}
+		return "[" + strings.Join(ss, "; ") + "]"
 	}
 	var tr []string
 	for _, rc := range r.recs {
@@ -509,7 +567,9 @@ func (r *Runner) CoqCase() string {
 			if rc.LR {
 				lr = fmt.Sprintf("(Some (%s, %s))", nm.CoqTxs(rc.LR1), nm.CoqTxs(rc.LR2))
 			}
-			op = fmt.Sprintf("CChain [%s] %s (%s) %s", strings.Join(ss, "; "), lr, nm.CoqLedger(rc.Tip), nm.CoqIndex(rc.Tip.Index))
+			op = fmt.Sprintf("CChain [%s] %s (%s) %s %s", strings.Join(ss, "; "), lr, nm.CoqLedger(rc.Tip), nm.CoqIndex(rc.Tip.Index), updStr(rc.Upd))
+		case "store":
+			op = "CStore " + updStr(rc.Upd)
 		case "look":
 			op = fmt.Sprintf("CLook %v %d", rc.V2, nm.Tx(rc.ID))
 		case "query":
